@@ -55,6 +55,11 @@ CLAIMED["C16"] = ("4/C16", "All 49 regular and 21 BCL-style week-year rules over
                   "all 140 in thorough); weeks advance every 7 days from the first day of week; the ISO rule against the ISO-8601 definition; "
                   "next/previous(/or-same) via abstract self; n-th weekday of month over 400-year ISO windows; real calendar range ends as a labelled premise.",
                   "stdlib isocalendar agreement is not a separate check: the ISO definition lemma plus C02's ISO day-of-week lemma imply it")
+CLAIMED["C18"] = ("4/C18", "Real DateInterval over real LocalDate on the DayCalendar abstraction: length, membership (day and interval), "
+                  "intersection, union (defined iff overlapping or adjacent), constructor rejection (reversed ends, mixed calendars), mixed-calendar "
+                  "operations raise, iteration of short intervals; Interval over all instants incl. both unbounded ends (membership, has_start/"
+                  "has_end, start/end/duration raising); YearMonth.to_date_interval on real ISO/Julian/Coptic.",
+                  "day-number order = calendar order is C01.order; plus_days by contract C09")
 NOT_BUILT = {}
 
 NA_REASON = "check not built yet in this round (design in DESIGN.md section 4); no claim is made"
